@@ -111,6 +111,66 @@ def explore(ctx):
         after = [snap.font_snapshot(f) for f in fonts]
         if before != after:
             ctx.spec_failure({"font": jsonable(base)}, "generating instances altered the sources: %s" % "; ".join(snap.diff(before, after)[:3]))
+    # ---------------- three masters on one axis, sources listed in every order (the default source first, in the middle,
+    # last), the default location at the minimum / in the middle / at the maximum, and a glyph that is EMPTY in every master
+    # with a different advance in each: on one axis the variation model is the piecewise-linear interpolation through the
+    # masters, so every instance is the blend of its two neighbouring masters (the same Coq statement, per segment)
+    import itertools
+    rng3 = ctx.subrng("three-masters")
+    orders = list(itertools.permutations(range(3)))
+    for i in range(ctx.budget(12, 72)):
+        lib = ["ufoLib2", "defcon"][i % 2]
+        base = dsgen.base_master(rng3)
+        masters = [base, dsgen.perturb(rng3, base, 1), dsgen.perturb(rng3, base, 2)]
+        for k, m in enumerate(masters):
+            m["glyphs"] = list(m["glyphs"]) + [{"name": "space", "unicodes": [0x20], "width": Fr([200, 300, 460][k]), "contours": [],
+                                                "components": [], "anchors": []}]
+            m["glyphOrder"] = list(base["glyphOrder"]) + ["space"] if k else m.get("glyphOrder")
+        base["glyphOrder"] = [g["name"] for g in base["glyphs"]]
+        locs = [100, 500, 900]
+        order = orders[i % 6]
+        dflt = (i // 6) % 3
+        ds, fonts_perm = dsgen.make_designspace(rng3, [masters[k] for k in order], lib, axes=[("Weight", "wght", 100, locs[dflt], 900)],
+                                                locations=[{"Weight": locs[k]} for k in order], instances=False)
+        fonts = [None] * 3
+        for pos, k in enumerate(order):
+            fonts[k] = fonts_perm[pos]
+        names = [g["name"] for g in base["glyphs"]]
+        kern_keys = sorted(set().union(*[set(m["kerning"]) for m in masters]))
+        rnd = i % 4 == 3
+        vecs = [font_vector(f, names, kern_keys) for f in fonts]
+        before = [snap.font_snapshot(f) for f in fonts]
+        info = {"source_order_by_location": [locs[k] for k in order], "default_location": locs[dflt]}
+        try:
+            inst = Instantiator.from_designspace(ds, round_geometry=rnd)
+        except Exception as e:
+            ctx.spec_failure(dict(info, font=jsonable(base)), "Instantiator.from_designspace raised %s: %s" % (type(e).__name__, e))
+            continue
+        for loc in [locs[order[0]], 300, 100, 700, 500, 900]:
+            d = InstanceDescriptor()
+            d.familyName, d.styleName, d.location = "Fam", "I%d" % loc, {"Weight": loc}
+            case = dict(info, font=jsonable(base), masters=[jsonable(m) for m in masters[1:]], location=loc, round_geometry=rnd, lib=lib)
+            try:
+                f = inst.generate_instance(d)
+            except Exception as e:
+                ctx.spec_failure(case, "generate_instance raised %s: %s\n%s" % (type(e).__name__, e, traceback.format_exc()[-800:]))
+                continue
+            ctx.count()
+            ctx.klass("three masters: default %s, listed %s" % (["at minimum", "in the middle", "at maximum"][dflt],
+                                                                ["first", "second", "last"][order.index(dflt)]))
+            ctx.nontriv(("inst3", i, loc, ctx.scale))
+            if sorted(f.keys()) != sorted(names):
+                ctx.spec_failure(case, "instance glyph set %r is not the default source's %r" % (sorted(f.keys()), sorted(names)))
+                continue
+            obs = font_vector(f, names, kern_keys)
+            seg = 0 if loc <= 500 else 1
+            if len(obs) != len(vecs[0]):
+                ctx.spec_failure(case, "instance has a different point structure than the masters")
+                continue
+            cases.append(G.tup(g_vec(vecs[seg]), g_vec(vecs[seg + 1]), geom.g_q(Fr(loc - locs[seg], 400)), G.b(rnd), g_vec(obs)))
+            meta.append(case)
+        if before != [snap.font_snapshot(f) for f in fonts]:
+            ctx.spec_failure(dict(info, font=jsonable(base)), "generating instances altered the sources")
     vals = ctx.coq_eval(IMPORTS, FN_BLEND, cases, chunk=40, tag="Blend")
     for v, case in zip(vals, meta):
         if v is not None and v != 3:
